@@ -309,6 +309,36 @@ pub fn eval_paths(c: &PathCase) -> Outcome {
             }
         }
     }
+    // 2b. a second finish attempt must fail the same way whichever form is used (in-place vs consuming, alias)
+    if r.finished_at.is_some() {
+        let n = l.ops.len();
+        let mut seen: Option<(String, u8)> = None;
+        for k in 0..5u8 {
+            let mut ops = l.ops.clone();
+            ops[n - 1] = COp::Finish(FinishKind::InPlace);
+            ops.push(COp::Finish(FinishKind::from_idx(k)));
+            let r2 = run_history(&l.cfg, &ops);
+            let res = r2.results.last().map(|x| match x {
+                CallResult::Err { variant, .. } => format!("Err({})", variant),
+                other => other.short(),
+            });
+            if let Some(res) = res {
+                match &seen {
+                    None => seen = Some((res, k)),
+                    Some((first, k0)) => {
+                        if &res != first {
+                            o.fail(
+                                "paths",
+                                format!("paths.second_finish.{:?}", FinishKind::from_idx(k)),
+                                format!("a second finish returns {} through {:?} but {} through {:?}", res, FinishKind::from_idx(k), first, FinishKind::from_idx(*k0)),
+                            );
+                            break;
+                        }
+                    }
+                }
+            }
+        }
+    }
     // 3. audio codec 'none' vs no audio call
     if !l.cfg.has_audio() {
         for (a, alias) in [(8u8, false), (8, true), (0, false)] {
